@@ -414,6 +414,18 @@ def replay_pairs(chk, h, consts):
       except Exception as e:  # pylint: disable=broad-exception-caught
         chk.violation(f'pairs:exception:{type(e).__name__}', f'[{desc}] {how}: {e!r}', ctx)
         return
+    # the symmetric prediction difference is a mean over ELEMENTS: the same pairs as two-column batches give the same value
+    if len(flat_x) % 2 == 0 and flat_x:
+      try:
+        acc = agg.SymmetricPredictionDifference()
+        acc.add(np.asarray(flat_x).reshape(-1, 2), np.asarray(flat_y).reshape(-1, 2))
+        judge('spd:two-column-batch', acc.result(), ratio(h['spd']))
+        if len(flat_x) % 4 == 0:
+          acc = agg.SymmetricPredictionDifference()
+          acc.add(np.asarray(flat_x).reshape(-1, 2, 2), np.asarray(flat_y).reshape(-1, 2, 2))
+          judge('spd:three-dimensional-batch', acc.result(), ratio(h['spd']))
+      except Exception as e:  # pylint: disable=broad-exception-caught
+        chk.violation(f'pairs:spd:two-column-batch:exception:{type(e).__name__}', f'[{desc}] {e!r}', ctx)
     # cross entropies over the raw examples (the logarithms are the replayer's: math.log, one example at a time)
     if h['binary'] and all(0 < x < scale for x in flat_x):
       ps = [x / scale for x in flat_x]
